@@ -276,3 +276,40 @@ package traversal
 //@ func (Progress).FocusedTransform(n, p, fn, createParents) (r, err)
 //@   requires n != nil && fn != nil && prog.Cfg != nil && prog.Cfg.LinkSystem.DecoderChooser != nil && prog.Cfg.LinkSystem.HasherChooser != nil && prog.Cfg.LinkSystem.EncoderChooser != nil
 //@   assigns[C20] foreign, prog.Budget.NodeBudget, prog.Budget.LinkBudget, ghostall("io.Reader.pos"), ghostall("io.Writer.fed"), ghostall("io.Writer.fedof"), ghostall("linking.BlockWriteCommitter.calls")
+
+// ---- C14: Focus/Get resolve a path exactly like looking up one segment at a time ----
+// stepval: the child one segment down; linktarget: the value of the block a link addresses (that a
+// link determines what is loaded is the content-addressing assumption, stated at the Load call);
+// derefall: follow links until something else is reached; resolveN(v, p, k): v after the first k
+// segments of p, links followed after every step.
+//@ pure func stepval(v datamodel.Val, seg datamodel.PathSegment) datamodel.Val = datamodel.vkind(v) == datamodel.Kind_Map ? datamodel.vchild(v, datamodel.vidx(v, datamodel.segstr(seg))) : datamodel.vchild(v, datamodel.segidx(seg))
+//@ pure func linktarget(l linking.LinkId) datamodel.Val
+//@ pure func derefall(v datamodel.Val) datamodel.Val
+//@ pure func resolveN(v datamodel.Val, p datamodel.Path, k mathint) datamodel.Val
+//@ axiom derefall_stop: forall v datamodel.Val :: datamodel.vkind(v) != datamodel.Kind_Link ==> derefall(v) == v
+//@ axiom derefall_link: forall v datamodel.Val :: datamodel.vkind(v) == datamodel.Kind_Link ==> derefall(v) == derefall(linktarget(datamodel.vlink(v).lid))
+//@ axiom resolve_0: forall v datamodel.Val, p datamodel.Path :: resolveN(v, p, 0) == v
+//@ pure func pathseg(p datamodel.Path, k mathint) datamodel.PathSegment
+//@ axiom resolve_step: forall v datamodel.Val, p datamodel.Path, k mathint :: 0 < k ==> resolveN(v, p, k) == derefall(stepval(resolveN(v, p, k - 1), pathseg(p, k - 1)))
+
+//@ func (*Progress).get(n, p, trackProgress) (r, err)
+//@   requires prog != nil && n != nil && prog.Cfg != nil && prog.Cfg.LinkSystem.DecoderChooser != nil && prog.Cfg.LinkSystem.HasherChooser != nil
+//   (pathseg(p, k) names the k-th segment of the path value p: axioms cannot read the heap)
+//@   after Segments assume forall k mathint :: 0 <= k && k < len(result0) ==> pathseg(p, k) == result0[k]
+//   (no node of a tree reports Kind_Invalid; the code panics if one does)
+//@   after Kind assume result0 != datamodel.Kind_Invalid
+//@   before LookupByString assert[C14] carg1 == datamodel.segstr(seg)
+//@   before LookupByIndex assert[C14] carg1 == datamodel.segidx(seg)
+//@   after AsLink let thelink = result0
+//@   before Load assert[C14] carg2 == thelink
+//@   after Load assume result1 == nil ==> result0.val == linktarget(thelink.lid)
+//@   ensures[C14] err == nil ==> r != nil && r.val == resolveN(old(n.val), p, len(p.segments))
+//@   ensures[C14] err == nil && trackProgress ==> len(prog.Path.segments) == len(old(prog.Path.segments)) + len(p.segments)
+//@   loop 0 invariant prog != nil && prog.Cfg != nil && prog.Cfg.LinkTargetNodePrototypeChooser != nil && prog.Cfg.LinkSystem.DecoderChooser != nil && prog.Cfg.LinkSystem.HasherChooser != nil
+//@   loop 0 invariant n != nil && 0 - 1 <= rangeindex && rangeindex < len(segments) && segments == p.segments && prog.Path == old(prog.Path)
+//@   loop 0 invariant n.val == resolveN(old(n.val), p, rangeindex + 1)
+//@   loop 0 invariant forall k mathint :: 0 <= k && k < len(segments) ==> pathseg(p, k) == segments[k]
+//@   loop 1 invariant prog != nil && prog.Cfg != nil && prog.Cfg.LinkTargetNodePrototypeChooser != nil && prog.Cfg.LinkSystem.DecoderChooser != nil && prog.Cfg.LinkSystem.HasherChooser != nil
+//@   loop 1 invariant n != nil && 0 <= i && i < len(segments) && segments == p.segments && prog.Path == old(prog.Path)
+//@   loop 1 invariant derefall(n.val) == resolveN(old(n.val), p, i + 1)
+//@   loop 1 invariant forall k mathint :: 0 <= k && k < len(segments) ==> pathseg(p, k) == segments[k]
